@@ -116,6 +116,49 @@ Proof.
   destruct (in_chain c (mkRule name true fn alt)); reflexivity.
 Qed.
 
+Lemma compile_chain_one (x : rule) c :
+  compile_chain [x] c = if renabled x && in_chain c x then [rfn x] else [].
+Proof. unfold compile_chain. cbn [filter]. destruct (renabled x && in_chain c x); reflexivity. Qed.
+
+Theorem after_applied (r : ruler) ref name fn alt i c :
+  find (rules r) ref = Some i ->
+  exists a x b,
+    rules r = a ++ x :: b /\ rname x = ref /\
+    compile_chain (rules (fst (step r (OpAfter ref name fn alt)))) c =
+      compile_chain (a ++ [x]) c ++ (if in_chain c (mkRule name true fn alt) then [fn] else [])
+                                 ++ compile_chain b c.
+Proof.
+  intros H. destruct (after_order r ref name fn alt i H) as [a [x [b [Hrs [Hx [_ Hs]]]]]].
+  exists a, x, b. split; [exact Hrs|]. split; [exact Hx|]. rewrite Hs. cbn [fst rules].
+  change (a ++ x :: mkRule name true fn alt :: b)
+    with (a ++ [x] ++ [mkRule name true fn alt] ++ b).
+  rewrite !compile_chain_app, <- app_assoc. f_equal. f_equal. f_equal.
+  apply compile_chain_one.
+Qed.
+
+Theorem push_applied (r : ruler) name fn alt c :
+  compile_chain (rules (fst (step r (OpPush name fn alt)))) c =
+    compile_chain (rules r) c ++ (if in_chain c (mkRule name true fn alt) then [fn] else []).
+Proof. cbn [step fst rules]. rewrite compile_chain_app. f_equal. apply compile_chain_one. Qed.
+
+(* at(): every other rule's contribution stays; the replaced rule contributes
+   the new function iff it is enabled and the new chains include c *)
+Theorem at_applied (r : ruler) name fn alt i c :
+  find (rules r) name = Some i ->
+  exists a x b,
+    rules r = a ++ x :: b /\ rname x = name /\
+    compile_chain (rules (fst (step r (OpAt name fn alt)))) c =
+      compile_chain a c
+      ++ (if renabled x && in_chain c (mkRule name (renabled x) fn alt) then [fn] else [])
+      ++ compile_chain b c.
+Proof.
+  intros H. destruct (at_order r name fn alt i H) as [a [x [b [Hrs [Hx [_ Hs]]]]]].
+  exists a, x, b. split; [exact Hrs|]. split; [exact Hx|]. rewrite Hs. cbn [fst rules].
+  change (a ++ mkRule name (renabled x) fn alt :: b)
+    with (a ++ [mkRule name (renabled x) fn alt] ++ b).
+  rewrite !compile_chain_app, compile_chain_one. reflexivity.
+Qed.
+
 (* enable / disable are idempotent - rules, cache and the value returned (or
    the exception raised) are the same the second time *)
 Lemma mark_mark v P (x : rule) : mark v P (mark v P x) = mark v P x.
